@@ -6,7 +6,7 @@ import ast
 from ..lib import Facts, calls_in, own_nodes, stmt_of
 from ..model import AnalysisError, ClassInfo, FuncInfo
 from ..report import Run
-from ..terms import TermCtx, contains, show, strip_sites, unphi_terms
+from ..terms import root_of, TermCtx, contains, show, strip_sites, unphi_terms
 from ..visitors import LAMBDA_ARG_KINDS
 
 EXPLANATION = (
@@ -181,7 +181,7 @@ def check_binders(run: Run, ctx: TermCtx, m, cls: ClassInfo, rule: str) -> None:
         nodep = ("param", h.pos_params[1])
         from ..lib import call_events
 
-        pushes = [e for e in call_events(ctx, h, lambda n: n == "append") if e.args]
+        pushes = [e for e in call_events(ctx, h, lambda n: n == "append") if e.args and e.recv is not None and root_of(e.recv) == ("param", h.pos_params[0])]
         ok_t = False
         for c in pushes:
             t = c.args[0]
@@ -208,8 +208,10 @@ def _paired(run: Run, ctx, fi: FuncInfo, rule: str) -> None:
     from ..lib import call_events, event_after, event_before
 
     evs = call_events(ctx, fi, lambda n: n in ("append", "pop", "generic_visit"))
-    pushes = [e for e in evs if e.name == "append"]
-    pops = [e for e in evs if e.name == "pop"]
+    selfp = ("param", fi.pos_params[0])
+    # the frame stack is an attribute of self; appends to local lists (a frame being built) are not pushes
+    pushes = [e for e in evs if e.name == "append" and e.recv is not None and root_of(e.recv) == selfp and e.recv != selfp]
+    pops = [e for e in evs if e.name == "pop" and e.recv is not None and root_of(e.recv) == selfp and e.recv != selfp]
     gvs = [e for e in evs if e.name == "generic_visit"]
     ok = len(pushes) == 1 and len(pops) == 1 and len(gvs) == 1
     if ok:
